@@ -93,6 +93,31 @@ theorem filter_release (rel o : List Nat) (h : ∀ x ∈ rel, x ∉ o) :
     intro hr; exact h a hr ha
   rw [h1, h2]; rfl
 
+/-- the code of `abs` behind its argument: two instructions, `owners` unchanged; refused if the register is not owned -/
+theorem absTail_ok {reg : Nat} {long : Bool} {g : GenState} {r : Unit × GenState} (h : absTail reg long g = .ok r) :
+    reg ∈ g.owners ∧ r = ((), { g with code := g.code ++ [⟨absTest long, reg, 0, 1, 0⟩,
+      ⟨Consts.op_NEG + longBit long, reg, 0, 0, 0⟩] }) := by
+  unfold absTail at h
+  rw [bind_ok] at h
+  obtain ⟨os, g1, hos, h⟩ := h
+  rw [getOwners_ok] at hos
+  cases hos
+  split at h
+  · rw [bind_ok] at h
+    obtain ⟨_, _, hf, _⟩ := h
+    rw [fail_ok] at hf; exact hf.elim
+  · rename_i hown
+    rw [bind_ok] at h
+    obtain ⟨u1, g4, he1, h⟩ := h
+    rw [bind_ok] at h
+    obtain ⟨u2, g5, hadd, h⟩ := h
+    rw [emit_ok] at he1 h
+    rw [addOwner_ok] at hadd
+    cases h; cases hadd; cases he1
+    have hc : g.owners.contains reg = true := by simpa using hown
+    have hm : reg ∈ g.owners := by simpa using hc
+    exact ⟨hm, by simp [hm]⟩
+
 /-! ## values of immediates -/
 
 theorem simm_small (v : Int) (h : isSmall v = true) : simm v = BitVec.ofInt 64 v := by
@@ -142,9 +167,7 @@ structure Pre (e : Expr) (dst : Option Nat) (b force : Bool) (g : GenState) : Pr
   forced : force = true → dst ≠ none
   leaves : leavesOwned g.owners e
   frag : e.frag = true
-  inplace : unaryInPlace e force = false
   narrow : narrowIn64 e b force (dctx dst) = false
-  neg32 : neg32in64 e b = false
 
 theorem calc_const (v : Int) (dst : Option Nat) (b force : Bool) (g g' : GenState) (res : CalcRes)
     (h : calculate (.const v) dst (some b) force g = .ok (res, g')) : Post (.const v) dst b force g res g' := by
@@ -279,6 +302,33 @@ theorem calc_reg (no : Nat) (lg sg : Bool) (dst : Option Nat) (b force : Bool) (
         simp at hmv
         exact Or.inl hmv
 
+theorem not_contains_of_leaves {o : List Nat} {e : Expr} (hl : leavesOwned o e) {d : Nat} (hd : d ∉ o) :
+    e.contains d = false := by
+  cases h : e.contains d
+  · rfl
+  · exact absurd (contains_of_leaves hl h) hd
+
+theorem narrow_temp_reg {o : List Nat} {d0 : Nat} (hd : d0 ∉ o) : ∀ (e : Expr) (L f : Bool), leavesOwned o e →
+    narrowIn64 e L f (.reg d0) = narrowIn64 e L f .temp := by
+  intro e
+  induction e with
+  | const v => intro L f _; rfl
+  | reg no lg sg =>
+    intro L f hl
+    have : no ≠ d0 := fun e => hd (e ▸ hl)
+    have e1 : (DstCtx.reg d0 != DstCtx.reg no) = true := by
+      simp only [bne_iff_ne, ne_eq, DstCtx.reg.injEq]; exact Ne.symm this
+    have e2 : (DstCtx.temp != DstCtx.reg no) = true := by simp
+    simp only [narrowIn64, e1, e2]
+  | bin op l r sg k ihl _ =>
+    intro L f hl
+    simp only [narrowIn64, DstCtx.forLeft, not_contains_of_leaves hl.2 hd]
+    simp only [Bool.false_eq_true, if_false]
+    rw [ihl L true hl.1]
+  | neg a ih => intro L f hl; simp only [narrowIn64, DstCtx.forced]; exact ih L true hl
+  | abs a ih => intro L f hl; simp only [narrowIn64, DstCtx.forced]; exact ih L true hl
+  | mem fm a _ => intro L f _; simp only [narrowIn64]
+
 /-- the induction hypothesis for a sub-expression -/
 def IH (a : Expr) : Prop := ∀ (dst : Option Nat) (b force : Bool) (g g' : GenState) (res : CalcRes),
   Pre a dst b force g → calculate a dst (some b) force g = .ok (res, g') → Post a dst b force g res g'
@@ -303,51 +353,80 @@ theorem calc_neg (a : Expr) (ih : IH a) (dst : Option Nat) (b force : Bool) (g g
     Post (.neg a) dst b force g res g' := by
   simp only [calculate] at h
   rw [bind_ok] at h
-  obtain ⟨ra, g1, hcalc, h⟩ := h
+  obtain ⟨⟨d, rel⟩, g1, hfree, h⟩ := h
+  simp only [] at h
   rw [bind_ok] at h
-  obtain ⟨u, g2, hemit, h⟩ := h
+  obtain ⟨ra, g2, hcalc, h⟩ := h
+  rw [bind_ok] at h
+  obtain ⟨u, g3, hemit, h⟩ := h
   rw [pure_ok] at h
   rw [emit_ok] at hemit
   cases h; cases hemit
-  have hin := hp.inplace
-  simp only [unaryInPlace, Bool.or_eq_false_iff, Bool.and_eq_false_iff] at hin
-  have hn32 := hp.neg32
-  simp only [neg32in64, Bool.or_eq_false_iff] at hn32
-  have hpa : Pre a dst b force g :=
-    ⟨hp.dstOwned, hp.forced, hp.leaves, hp.frag, hin.2, hp.narrow, hn32.2⟩
-  have post := ih dst b force g g1 res hpa hcalc
+  have hlg : unaryLong (some b) ra.long = (b || ra.long) := by cases b <;> rfl
+  rw [hlg]
+  obtain ⟨hc1, hs1, ho1, hcase⟩ := getFree_ok hfree
+  have hplace : dst = some d ∨ (dst = none ∧ d ∉ g.owners) := by
+    rcases hcase with ⟨h1, _⟩ | ⟨h1, _, h3, _⟩
+    · exact Or.inl h1
+    · exact Or.inr ⟨h1, h3⟩
+  have hfresh : ∀ x ∈ rel, x ∉ g.owners := by
+    rcases hcase with ⟨_, h2⟩ | ⟨_, h2, h3, _⟩
+    · simp [h2]
+    · simp [h2, h3]
+  have hsub : ∀ n, n ∈ g.owners → n ∈ g1.owners := fun n hn => by rw [ho1]; exact List.mem_append_right _ hn
+  have hdown : d ∈ g1.owners := by
+    rw [ho1]
+    rcases hcase with ⟨h1, _⟩ | ⟨_, h2, _, _⟩
+    · exact List.mem_append_right _ (hp.dstOwned d h1)
+    · simp [h2]
+  have hnar := hp.narrow
+  simp only [narrowIn64] at hnar
+  have hpa : Pre a (some d) b true g1 := by
+    refine ⟨fun n hn => (by cases hn; exact hdown), fun _ => (by simp), leavesOwned_mono hsub hp.leaves, hp.frag, ?_⟩
+    rcases hplace with h1 | ⟨h1, h2⟩
+    · subst h1; simpa [dctx, DstCtx.forced] using hnar
+    · subst h1
+      rw [dctx, narrow_temp_reg h2 a b true hp.leaves]
+      simpa [dctx, DstCtx.forced] using hnar
+  have post := ih (some d) b true g1 g2 ra hpa hcalc
   obtain ⟨c, hc, hst, hrun⟩ := post.run
-  have hpl : force = true ∨ regChain a = false := by
-    rcases hin.1 with h1 | h1
-    · left; simpa using h1
-    · right; exact h1
-  refine ⟨⟨c ++ [⟨Consts.op_NEG + longBit res.long, res.reg, 0, 0, 0⟩], by simp [hc], ?_, ?_⟩, post.owners, post.fresh, post.stack, ?_, ?_⟩
+  have hreg : ra.reg = d := by
+    rcases post.place (Or.inl rfl) with h1 | ⟨h1, _⟩
+    · cases h1; rfl
+    · cases h1
+  have hne_d : ∀ n ∈ g.owners, dst ≠ some n → n ≠ d := by
+    intro n hn hnd e
+    subst e
+    rcases hplace with h1 | ⟨_, h2⟩
+    · exact hnd h1
+    · exact h2 hn
+  refine ⟨⟨c ++ [⟨Consts.op_NEG + longBit (b || ra.long), ra.reg, 0, 0, 0⟩], by simp [hc, hc1], ?_, ?_⟩, ?_, ?_, by simp [post.stack, hs1], ?_, ?_⟩
   · intro i hi
     simp at hi
     rcases hi with hi | hi
     · exact hst i hi
-    · subst hi; cases res.long <;> straight_tac
+    · subst hi; cases (b || ra.long) <;> straight_tac
   · intro σ
     obtain ⟨σ1, he, hv, hfr, hm⟩ := hrun σ
-    refine ⟨(σ1.setReg res.reg (negSem res.long (σ1.regs res.reg))).norm, ?_, ?_, ?_, ?_⟩
-    · rw [exec_append he]; exact exec_neg σ1 res.long res.reg
+    refine ⟨(σ1.setReg ra.reg (negSem (b || ra.long) (σ1.regs ra.reg))).norm, ?_, ?_, ?_, ?_⟩
+    · rw [exec_append he]; exact exec_neg σ1 (b || ra.long) ra.reg
     · simp only [State.norm_regs, State.setReg_same, evalBV]
       apply neg_agree _ _ _ _ hv
       intro hb; subst hb
-      rw [post.long]
-      simpa using hn32.1
+      rfl
     · intro n hn hnd
       simp only [State.norm_regs]
-      rw [State.setReg_other, hfr n hn hnd]
-      intro e; subst e
-      rcases post.place hpl with h1 | ⟨_, h2⟩
-      · exact hnd h1
-      · exact h2 hn
+      have hnd' := hne_d n hn hnd
+      rw [hreg, State.setReg_other _ _ _ _ hnd']
+      exact hfr n (hsub n hn) (by intro e; cases e; exact hnd' rfl)
     · simpa using hm
+  · simp only [post.owners, ho1, List.append_assoc]
+  · intro x hx
+    rcases List.mem_append.mp hx with hx | hx
+    · exact fun hxg => post.fresh x hx (hsub x hxg)
+    · exact hfresh x hx
   · simp [retLong, post.long]
-  · intro hor
-    simp only [regChain] at hor
-    exact post.place hor
+  · intro _; rw [hreg]; exact hplace
 
 /-- the instructions `load` emits -/
 def loadCode (d src : Nat) (off : Int) (fmt : Fmt) (b : Bool) : List Insn :=
@@ -462,33 +541,6 @@ theorem calc_mem (fmt : Fmt) (addr : Expr) (dst : Option Nat) (b force : Bool) (
       · intro e; subst e; exact h2 hn
   · rw [ho2, hd1]; simp [ho1]
 
-theorem not_contains_of_leaves {o : List Nat} {e : Expr} (hl : leavesOwned o e) {d : Nat} (hd : d ∉ o) :
-    e.contains d = false := by
-  cases h : e.contains d
-  · rfl
-  · exact absurd (contains_of_leaves hl h) hd
-
-theorem narrow_temp_reg {o : List Nat} {d0 : Nat} (hd : d0 ∉ o) : ∀ (e : Expr) (L f : Bool), leavesOwned o e →
-    narrowIn64 e L f (.reg d0) = narrowIn64 e L f .temp := by
-  intro e
-  induction e with
-  | const v => intro L f _; rfl
-  | reg no lg sg =>
-    intro L f hl
-    have : no ≠ d0 := fun e => hd (e ▸ hl)
-    have e1 : (DstCtx.reg d0 != DstCtx.reg no) = true := by
-      simp only [bne_iff_ne, ne_eq, DstCtx.reg.injEq]; exact Ne.symm this
-    have e2 : (DstCtx.temp != DstCtx.reg no) = true := by simp
-    simp only [narrowIn64, e1, e2]
-  | bin op l r sg k ihl _ =>
-    intro L f hl
-    simp only [narrowIn64, DstCtx.forLeft, not_contains_of_leaves hl.2 hd]
-    simp only [Bool.false_eq_true, if_false]
-    rw [ihl L true hl.1]
-  | neg a ih => intro L f hl; simp only [narrowIn64]; exact ih L f hl
-  | abs a ih => intro L f hl; simp only [narrowIn64]; exact ih L f hl
-  | mem fm a _ => intro L f _; simp only [narrowIn64]
-
 theorem aluSem_agree (op : BinOp) (b : Bool) {x X y Y : W} (hx : Agree b x X) (hy : Agree b y Y) :
     aluSem op b x y = aluSem op b X Y := by
   cases b
@@ -526,12 +578,8 @@ theorem calc_bin (op : BinOp) (l r : Expr) (sg : Bool) (k : Kind) (ihl : IH l) (
   obtain ⟨hc1, hs1, ho1, hcase⟩ := getFree_ok hfree
   -- facts about the hypotheses
   have hleaves := hp.leaves
-  have hin := hp.inplace
-  simp only [unaryInPlace, Bool.or_eq_false_iff] at hin
   have hnar := hp.narrow
   simp only [narrowIn64, Bool.or_eq_false_iff] at hnar
-  have hn32 := hp.neg32
-  simp only [neg32in64, Bool.or_eq_false_iff] at hn32
   have hfrag := hp.frag
   simp only [Expr.frag, Bool.and_eq_true] at hfrag
   -- where d0 comes from
@@ -571,7 +619,7 @@ theorem calc_bin (op : BinOp) (l r : Expr) (sg : Bool) (k : Kind) (ihl : IH l) (
     · exact not_contains_of_leaves hleaves.2 h3
   -- left operand
   have hpl : Pre l (some d0) b true g1 := by
-    refine ⟨fun n hn => (by cases hn; exact hd0own), fun _ => (by simp), leavesOwned_mono hsub hleaves.1, hfrag.1, hin.1, ?_, hn32.1⟩
+    refine ⟨fun n hn => (by cases hn; exact hd0own), fun _ => (by simp), leavesOwned_mono hsub hleaves.1, hfrag.1, ?_⟩
     rcases hd0 with ⟨h1, h2, _⟩ | ⟨h3, _, h4⟩
     · subst h1; simpa [dctx, DstCtx.forLeft, h2] using hnar.1
     · rw [dctx, narrow_temp_reg h3 l b true hleaves.1, ← h4]; exact hnar.1
@@ -621,11 +669,9 @@ theorem calc_bin (op : BinOp) (l r : Expr) (sg : Bool) (k : Kind) (ihl : IH l) (
       rw [release_ok] at hright
       cases hem; cases hright
       have hpr : Pre r none b false g3 := by
-        refine ⟨fun n hn => (by cases hn), fun hf => (by cases hf), ?_, hfrag.2, ?_, ?_, ?_⟩
+        refine ⟨fun n hn => (by cases hn), fun hf => (by cases hf), ?_, hfrag.2, ?_⟩
         · exact leavesOwned_mono (fun n hn => by rw [hg3o]; exact hsub n hn) hleaves.2
-        · simpa [hnone] using hin.2
         · simpa [hnone, dctx] using hnar.2
-        · simpa [hnone] using hn32.2
       have postr := ihr none b false g3 g5 rres hpr hcr
       obtain ⟨cr, hcr2, hstr, hrunr⟩ := postr.run
       refine ⟨cr ++ [⟨op.opcode + Consts.op_REG + longBit b, d0, rres.reg, 0, 0⟩], by simp [hcr2], ?_, ?_, postr.stack, ?_⟩
